@@ -234,21 +234,9 @@ func rulesC17(w *World, r *Report) {
 		sig := m.Signature
 		switch {
 		case sig.Params().Len() == 0 && sig.Results().Len() == 1: // Get
-			w.poolGetFlow(r, m)
+			w.poolGetFlowPX(r, m)
 		case sig.Params().Len() == 1 && sig.Results().Len() == 0: // Return
-			p := m.Params[1]
-			uses := 0
-			okUse := true
-			for _, ref := range *p.Referrers() {
-				if _, isDbg := ref.(*ssa.DebugRef); isDbg {
-					continue
-				}
-				uses++
-				if sel, ok := ref.(*ssa.Select); !ok || sel.Blocking {
-					okUse = false
-				}
-			}
-			r.add("C17.R3 pooled value has a single owner", fnName(m)+" · uses of the returned object", w.pos(m.Pos()), okUse && uses == 1, fmt.Sprintf("%d use(s); want exactly one: the send case of the non-blocking select", uses))
+			w.poolReturnFlow(r, m)
 		}
 	}
 	// factories return fresh values
@@ -257,53 +245,6 @@ func rulesC17(w *World, r *Report) {
 		r.add("C17.R3 pooled value has a single owner", fnName(fc)+" · factory result is fresh", w.pos(fc.Pos()), ok, fact)
 	}
 	r.floor("C17.R3 factories", len(factories), 3)
-}
-
-func (w *World) poolGetFlow(r *Report, m *ssa.Function) {
-	rule := "C17.R3 pooled value has a single owner"
-	n := 0
-	for _, b := range m.Blocks {
-		ret, ok := b.Instrs[len(b.Instrs)-1].(*ssa.Return)
-		if !ok {
-			continue
-		}
-		n++
-		v := ret.Results[0]
-		ok2, fact := false, "returned value is "+v.String()
-		switch x := v.(type) {
-		case *ssa.Extract:
-			if sel, isSel := x.Tuple.(*ssa.Select); isSel && x.Index >= 2 {
-				// received element: must have no other use
-				others := 0
-				for _, ref := range *x.Referrers() {
-					if _, isDbg := ref.(*ssa.DebugRef); isDbg {
-						continue
-					}
-					if ref != ssa.Instruction(ret) {
-						others++
-					}
-				}
-				ok2 = others == 0 && !sel.Blocking
-				fact = fmt.Sprintf("returns the element received by the non-blocking select; %d other use(s)", others)
-			}
-		case *ssa.Call:
-			// the factory: a dynamic call of a field of the pool
-			if x.Call.StaticCallee() == nil && !x.Call.IsInvoke() {
-				others := 0
-				for _, ref := range *x.Referrers() {
-					if _, isDbg := ref.(*ssa.DebugRef); isDbg {
-						continue
-					}
-					if ref != ssa.Instruction(ret) {
-						others++
-					}
-				}
-				ok2 = others == 0
-				fact = fmt.Sprintf("returns the factory's result; %d other use(s)", others)
-			}
-		}
-		r.add(rule, fmt.Sprintf("%s · return#%d", fnName(m), n), w.instrPos(ret), ok2, fact)
-	}
 }
 
 // returnsFresh: every return of fn yields a value allocated during the call
